@@ -97,6 +97,24 @@ NOTES = {
  "C14-16": "round 5; NOT reported: StartWith rewritten as ConcatWith(source)(Of(prefixes...)): inherits ConcatAll's wait inside the outer callback (the known C14 finding) through composition - the new body is one call, nothing structural to see in StartWith itself",
  "C17-14": "round 5; first missed by C17 (reported by C13); CLOSE-ONCE/send-from-teardown added", "C17-15": "round 5; first missed by C17 (reported by C13); CLOSE-ONCE/rebound added",
  "C17-16": "round 5; NOT reported: FromChannel(nil) returns Empty (a nil channel never closes, the observable should stay open) - a degenerate input, value level",
+ # round 6: sibling-pattern changes for the ten properties round 5 did not cover
+ "C01-14": "round 6", "C01-15": "round 6", "C01-16": "round 6",
+ "C02-14": "round 6; NOT reported: newSubscriberImpl reuses a foreign type that implements Subscriber instead of wrapping it - for *subscriberImpl the new condition is equivalent, the difference exists only for types outside the repository",
+ "C04-14": "round 6; NOT reported: Contains answers at completion (aligned with All) - when the answer comes, definition level (the same change as C08-3)",
+ "C04-15": "round 6; NOT reported: SkipLast accepts count 0 and then indexes an empty ring buffer - a boundary value, value level",
+ "C04-16": "round 6; first missed by C04 (reported by C07/C11); SHARE-REPLAY-CONFIG joined C04",
+ "C09-14": "round 6", "C09-15": "round 6; first missed; TERMINAL-CTX-FRESH added (it had reported Retry and Last on the unchanged tree, both repaired)",
+ "C09-16": "round 6; NOT reported: AsyncSubject broadcasts its stored value with the completion's context instead of the stored one - both are legitimate origins for the provenance rule; which of two stored contexts, value level",
+ "C12-14": "round 6", "C12-15": "round 6", "C12-16": "round 6",
+ "C15-14": "round 6; NOT reported by C15: RepeatWith stops on the round's own error instead of on destination.IsClosed() (a downstream unsubscription no longer stops it) - C14's clause, and RepeatWith's wait is a known C14 finding already",
+ "C15-15": "round 6; NOT reported by C15: Catch refuses to subscribe its fallback once the subscription context is done - which outcome names the fallback, definition level",
+ "C15-16": "round 6; NOT reported: Retry() delegates to Catch recursively (attempts nest instead of following each other) - the body is one call to Catch, nothing structural to see in Retry itself",
+ "C16-14": "round 6; NOT reported: SampleWhen flushes the pending value when the ticker completes (the same change as C05-16)",
+ "C16-15": "round 6", "C16-16": "round 6",
+ "C18-14": "round 6; NOT reported at first (one shared bufio.Reader without the per-line copy in NewPrompt); the repair of NewPrompt (2db6559) made the same move correctly, the seed was re-based onto it",
+ "C18-15": "round 6", "C18-16": "round 6; NOT reported: NewIOWriter forwards a source error without first emitting the byte count - what a sink reports on failure, definition level",
+ "C19-14": "round 6", "C19-15": "round 6",
+ "C20-14": "round 6; NOT reported: core Interval turns a cancelled context into an Error (ported from Timer/Never): one key's cancelled item context fails the whole native limiter - which terminal a cancellation yields, definition level",
 }
 
 rows = []
